@@ -272,6 +272,14 @@ class TimerMonitor(Monitor):
 
 
 
+def ref_pto(conn):
+    """RFC 9002 6.2.1 probe timeout from the endpoint's RTT estimator (read as data), without the loss-detection backoff"""
+    loss = conn._loss
+    if not loss._rtt_initialized:
+        return 2 * loss._rtt_initial
+    return loss._rtt_smoothed + max(4 * loss._rtt_variance, 0.001) + loss.max_ack_delay
+
+
 class C09Monitor(Monitor):
     """closing always terminates: once, within 3 PTO of starting to close or at the idle deadline; only closing packets in between."""
 
@@ -312,7 +320,7 @@ class C09Monitor(Monitor):
         if c is None or ep.terminated is not None:
             return
         if x not in self.closing and self._state(c) in ("CLOSING", "DRAINING"):
-            pto = c._loss.get_probe_timeout()
+            pto = ref_pto(c)
             how = "local" if x in self.closed_by else ("peer" if self._state(c) == "DRAINING" else "error")
             self.closing[x] = (now, pto, how)
             sim.stats["c09:closing-" + how] += 1
@@ -329,7 +337,7 @@ class C09Monitor(Monitor):
         if x not in self.closing and sim.blackout is not None and ep.handshake_complete and x in self.last_rx:
             idle_cfg = min(sim.ccfg.idle_timeout, sim.scfg.idle_timeout)
             base = max(self.last_rx[x], self.first_tx_after_rx.get(x, 0.0))
-            limit = base + max(idle_cfg, 3 * c._loss.get_probe_timeout()) + self.max_jitter + 0.01
+            limit = base + max(idle_cfg, 3 * ref_pto(c)) + self.max_jitter + 0.01
             if now > limit + 1.0:
                 sim.violation("idle-period-does-not-terminate", "%s: nothing received since t=%.3f (blackout at t=%.3f), negotiated idle timeout %.3f, still no termination at t=%.3f" % (x, self.last_rx[x], sim.blackout, idle_cfg, now))
                 raise simnet.SimStop()
@@ -389,7 +397,7 @@ class C09Monitor(Monitor):
                 if ep.conn is None or not ep.started or ep.terminated is not None or x in self.closing:
                     continue
                 last = max(self.last_rx.get(x, 0.0), 0.0)
-                limit = last + max(idle_cfg, 3 * ep.conn._loss.get_probe_timeout() * 1.0) + 1.0
+                limit = last + max(idle_cfg, 3 * ref_pto(ep.conn)) + 1.0
                 if sim.now > limit + 2.0 and ep.handshake_complete:
                     sim.violation("idle-period-does-not-terminate", "%s: nothing received since t=%.3f (blackout), idle timeout %.3f, still not terminated at t=%.3f" % (x, last, idle_cfg, sim.now))
                     return
